@@ -114,6 +114,12 @@ def check_C02(ctx, rep):
     _closed(ctx, rep, ['nfa_algorithms.nfa_words_up_to_n', 'pda_algorithms.pda_words_up_to_n'], 3)
     _worklists_in(ctx, rep, ['nfa_algorithms.epsilon_closure', 'pda_algorithms.pda_epsilon_closure'])
     cyk.check_cnf_use(ctx, rep, P('cfg_algorithms.cfg_words_up_to_n'))
+    # the TM enumerator decides membership by running the machine: the single-step function is part of it
+    models.check_tm_step(ctx, rep, P('tm_algorithms.tm_do_transition'))
+    rep.clauses_decided.append('the single-step function the TM enumerator runs keeps the head on the tape, extends it with blanks and writes before it moves (M6)')
+    # ... and the PDA enumerator moves through pda_do_transition, whose stack step is guard + action
+    pda_rules.check_stack_step(ctx, rep, P('pda_algorithms.pda_can_pop_push'), P('pda_algorithms.pda_pop_push'))
+    rep.clauses_decided.append('the stack step the PDA enumerator runs: guard true exactly when u is epsilon or on top, action pops u / pushes v (M9, finite model)')
     state.check_hidden_state(ctx, rep, modules=['dfa_algorithms', 'nfa_algorithms', 'pda_algorithms', 'tm_algorithms', 'cfg_algorithms', 'regexp_algorithms', 'language_algorithms', 'language_generator'])
     _effect_on(ctx, rep, ENUMERATORS + ['regexp_algorithms.regexp_words_up_to_n', 'language_generator.generate_language', 'language_algorithms.words_of_length_n'], shared=False)
 
@@ -244,6 +250,9 @@ def check_C07(ctx, rep):
     cyk.check_empty_word_guard(ctx, rep, P('cfg_algorithms.cfg_accepts_word'))
     check_chomsky_recogniser(ctx, rep)
     misc.check_arity(ctx, rep, P('cfg_algorithms.cfg_derive_word'))
+    # for a grammar that is not in CNF the membership test is CYK on the converted grammar
+    _conversion_kernel(ctx, rep)
+    rep.clauses_decided.append('the conversion the membership test runs first saturates its fixed points, orders its phases, and introduces only fresh variables that it registers in V -- CYK considers members of V only (R-WORK W5, R-PHASE, R-FRESH)')
     _effect_on(ctx, rep, ['cfg_algorithms.cfg_cyk_matrix', 'cfg_algorithms.cfg_accepts_word', 'cfg.CFG.is_chomsky', 'cfg.Alternative.is_chomsky'], shared=False)
 
 
@@ -256,14 +265,10 @@ def check_chomsky_recogniser(ctx, rep):
     cyk.check_grammar_recogniser(ctx, rep)
 
 
-def check_C08(ctx, rep):
-    rep.clauses_decided += ['pure twins deep-copy, call the in-place phase and return the copy (R-TWIN)', 'input grammar untouched (R-EFFECT)',
-                            'nullable and unit-closure sets are saturated (R-WORK W5)',
-                            'the five phases run in the same order in the pipeline, the phase selector and the postcondition table (R-PHASE)',
-                            'every introduced variable comes from the provider, is added to V before the next request, and the provider returns only names outside V on every path (R-FRESH)']
-    rep.not_decided += ['language preservation and postcondition establishment of each phase']
-    _twins(ctx, rep, ['cfg_to_chomsky', 'cfg_remove_epsilon_rules', 'cfg_eliminate_unit_rules', 'cfg_add_new_start_variable',
-                      'cfg_make_rules_of_length_two', 'cfg_eliminate_terminals'])
+def _conversion_kernel(ctx, rep):
+    """structural conditions of the Chomsky conversion; used by C08 itself and by the properties whose operations convert
+    on the fly (CYK membership, the grammar enumerator): the fixed points are saturated, the phases run in the order that
+    establishes their preconditions, every introduced variable is fresh and registered in V"""
     nf = ctx.prog.func('cfg_algorithms.cfg_nullable_variables')
     if not (work.check_flag_fixpoint(ctx, rep, nf) + work.check_size_fixpoint(ctx, rep, nf)):
         raise AnalysisError('nullable fixpoint loop vanished')
@@ -273,11 +278,22 @@ def check_C08(ctx, rep):
     n = _fresh_in(ctx, rep, ['cfg_algorithms.cfg_add_new_start_variable_in_place', 'cfg_algorithms.cfg_make_rules_of_length_two_in_place',
                              'cfg_algorithms.cfg_eliminate_terminals_in_place'], providers=['cfg_algorithms.cfg_fresh_variable'])
     if n < 3:
-        raise AnalysisError('fewer than 3 variable-introduction sites found for C08')
+        raise AnalysisError('fewer than 3 variable-introduction sites found in the Chomsky conversion')
     fresh.check_universe_monotone(ctx, rep, F(ctx, 'cfg_algorithms.cfg_to_chomsky_in_place', 'cfg_algorithms.cfg_add_new_start_variable_in_place', 'cfg_algorithms.cfg_remove_epsilon_rules_in_place',
                                               'cfg_algorithms.cfg_eliminate_unit_rules_in_place', 'cfg_algorithms.cfg_make_rules_of_length_two_in_place', 'cfg_algorithms.cfg_eliminate_terminals_in_place'))
     P = ctx.prog.func
     pda_rules.check_phase_order(ctx, rep, P('cfg_algorithms.cfg_to_chomsky_in_place'), P('notebook_chomsky.cfg_apply_chomsky'), P('notebook_chomsky.cfg_check_chomsky'))
+
+
+def check_C08(ctx, rep):
+    rep.clauses_decided += ['pure twins deep-copy, call the in-place phase and return the copy (R-TWIN)', 'input grammar untouched (R-EFFECT)',
+                            'nullable and unit-closure sets are saturated (R-WORK W5)',
+                            'the five phases run in the same order in the pipeline, the phase selector and the postcondition table (R-PHASE)',
+                            'every introduced variable comes from the provider, is added to V before the next request, and the provider returns only names outside V on every path (R-FRESH)']
+    rep.not_decided += ['language preservation and postcondition establishment of each phase']
+    _twins(ctx, rep, ['cfg_to_chomsky', 'cfg_remove_epsilon_rules', 'cfg_eliminate_unit_rules', 'cfg_add_new_start_variable',
+                      'cfg_make_rules_of_length_two', 'cfg_eliminate_terminals'])
+    _conversion_kernel(ctx, rep)
     _effect_on(ctx, rep, ['cfg_algorithms.cfg_to_chomsky', 'cfg_algorithms.cfg_remove_epsilon_rules', 'cfg_algorithms.cfg_eliminate_unit_rules',
                           'cfg_algorithms.cfg_add_new_start_variable', 'cfg_algorithms.cfg_make_rules_of_length_two',
                           'cfg_algorithms.cfg_eliminate_terminals', 'cfg_algorithms.cfg_nullable_variables', 'cfg_algorithms.cfg_derivable_variables',
@@ -287,6 +303,7 @@ def check_C08(ctx, rep):
 def check_C09(ctx, rep):
     rep.clauses_decided += ['closure worklist records and enqueues each configuration once, limit read at call time, at least `limit` pops allowed (R-WORK W1/W2/W4)',
                             'every pda_pop_push is dominated by pda_can_pop_push on the same arguments (guard pairing)',
+                            'the guard is true exactly when u is epsilon or on top of the stack, and the action pops u / pushes v, on a finite model of symbols and stacks (M9)',
                             'closure / step alternation and final test on a closed set (R-CLOSED)']
     rep.not_decided += ['soundness and completeness of the configuration search as a whole']
     _worklists_in(ctx, rep, ['pda_algorithms.pda_epsilon_closure'])
@@ -294,6 +311,8 @@ def check_C09(ctx, rep):
         raise AnalysisError('no read of a GambaTools setting found')
     if pda_rules.check_pop_push_guard(ctx, rep, ctx.prog.funcs_of('pda_algorithms')) < 4:
         raise AnalysisError('fewer than 4 pda_pop_push call sites found')
+    if pda_rules.check_stack_step(ctx, rep, ctx.prog.func('pda_algorithms.pda_can_pop_push'), ctx.prog.func('pda_algorithms.pda_pop_push')) < 2:
+        rep.note('stack step outside the finite model')
     _closed(ctx, rep, ['pda_algorithms.pda_accepts_word'], 2)
     _effect_on(ctx, rep, ['pda_algorithms.pda_epsilon_closure', 'pda_algorithms.pda_do_transition', 'pda_algorithms.pda_accepts_word',
                           'pda_algorithms.pda_pop_push', 'pda_algorithms.pda_can_pop_push'], shared=False)
@@ -367,6 +386,16 @@ def check_C12(ctx, rep):
     dispatch.check_kind_dispatch(ctx, rep, ctx.prog.func('notebook.check_automaton_accepts_rejects.accepts'), '_accepts_word')
     dispatch.check_kind_dispatch(ctx, rep, ctx.prog.func('language_generator.generate_language'), '_words_up_to_n')
     dispatch.check_ext_tables(ctx, rep, [ctx.prog.func('notebook.language_parser'), ctx.prog.func('make_notebook.parse_language_file')])
+    # the word lists of the exercises (expected / accepted / rejected words) are read by parse_word_list
+    if iorules.check_word_list_tokens(ctx, rep, ctx.prog.func('language_algorithms.parse_word_list')) < 1:
+        raise AnalysisError('tokeniser of parse_word_list vanished')
+    rep.clauses_decided.append('the word-list reader yields no token for an empty list (R-IO.tokens)')
+    # the language of a submitted Turing machine is computed by running it: a wrong step function makes the checker
+    # compare the wrong language (an answer that relies on the left end of the tape is judged on another machine)
+    models.check_tm_step(ctx, rep, ctx.prog.func('tm_algorithms.tm_do_transition'))
+    rep.clauses_decided.append('the single-step function with which the language of a submitted TM is computed keeps the head on the tape, extends it with blanks and writes before it moves (M6)')
+    pda_rules.check_stack_step(ctx, rep, ctx.prog.func('pda_algorithms.pda_can_pop_push'), ctx.prog.func('pda_algorithms.pda_pop_push'))
+    rep.clauses_decided.append('the stack step with which the language of a submitted PDA is computed (M9, finite model)')
 
 
 STATE_NAME_CHAINS = [
@@ -383,6 +412,7 @@ STATE_NAME_CHAINS = [
 def check_C13(ctx, rep):
     rep.clauses_decided += ['every template command has a branch of matching arity and every checker call resolves with matching arity (R-DISPATCH c)',
                             'printed keywords, state-name formats, operator tokens, symbol classes and the CFG epsilon spelling are inside what the reading parser accepts (R-IO a/c/d/e)']
+    rep.clauses_decided += ['the structural demands of the reverse checker (fresh initial state, accepting set {D.q0}) are met by dfa_reverse on every path (R-AGREE.reverse)']
     rep.not_decided += ["that the checker's semantic criterion accepts the generated object; data-dependent clashes such as a requested start variable that already exists"]
     if dispatch.check_templates(ctx, rep) < 60:
         raise AnalysisError('fewer than 60 template tags / checker calls found')
@@ -398,6 +428,7 @@ def check_C13(ctx, rep):
     build.check_value_validators(ctx, rep)
     iorules.check_line_delimiters(ctx, rep)
     misc.check_minimiser_siblings(ctx, rep, F(ctx, 'dfa_algorithms.dfa_minimize', 'dfa_algorithms.dfa_quotient', 'dfa_algorithms.dfa_hopfcroft'))
+    models.check_reverse_agreement(ctx, rep, ctx.prog.func('dfa_algorithms.dfa_reverse'), ctx.prog.func('notebook_dfa.check_dfa_reverse'))
     rep.extra['templates'] = len(ctx.prog.templates)
     rep.extra['template_tags'] = sum(len(t.tags) for t in ctx.prog.templates.values())
 
@@ -489,7 +520,8 @@ def check_C15(ctx, rep):
                             'the unread-input column is the suffix word[k:] in all three simulators (M8)',
                             'the history alternates raw and closed sets; acceptance and steps on closed sets (R-CLOSED i/ii/iv)',
                             'right-hand sides are unpacked into two symbols only under a length-2 test (R-ARITY)',
-                            'every node of the derivation tree is expanded by exactly one alternative: the loop over the split points is left after the children were added (R-WORK W9)']
+                            'every node of the derivation tree is expanded by exactly one alternative: the loop over the split points is left after the children were added (R-WORK W9)',
+                            'the stack step behind the PDA trace: guard true exactly when u is epsilon or on top, action pops u / pushes v (M9, finite model)']
     rep.not_decided += ['that each returned row is a legal move; leftmost/rightmost order of the derivation']
     _worklists_in(ctx, rep, ['nfa_algorithms.nfa_find_epsilon_path', 'pda_algorithms.pda_find_epsilon_path', 'nfa_algorithms.epsilon_closure', 'pda_algorithms.pda_epsilon_closure'])
     work.check_worklists(ctx, rep, F(ctx, 'cfg_algorithms.cfg_derive_word', 'cfg_algorithms.cfg_derive_word.extract_derivation'))
@@ -505,6 +537,8 @@ def check_C15(ctx, rep):
     if misc.check_arity(ctx, rep, P('cfg_algorithms.cfg_derive_word')) < 1:
         raise AnalysisError('right-hand-side unpack in cfg_derive_word vanished')
     pda_rules.check_find_transition(ctx, rep, P('pda_algorithms.pda_find_transition'))
+    # the PDA trace is rebuilt from the sets that pda_do_transition produced: its stack step is part of "genuine"
+    pda_rules.check_stack_step(ctx, rep, P('pda_algorithms.pda_can_pop_push'), P('pda_algorithms.pda_pop_push'))
     if work.check_single_expansion(ctx, rep, P('cfg_algorithms.cfg_derive_word')) < 1:
         raise AnalysisError('tree-building loop of cfg_derive_word vanished')
     _effect_on(ctx, rep, ['dfa_algorithms.dfa_simulate_word', 'nfa_algorithms.nfa_simulate_word', 'pda_algorithms.pda_simulate_word',
@@ -594,14 +628,37 @@ _MODULES_OF = {
 }
 
 
+# the notebook generator dispatches every command of every exercise: as a root it would make the whole library the
+# "closure" of any property one of whose functions it happens to call; it is a root only for the properties about it
+DISPATCHERS = {'make_notebook.py:apply_command': ('C13', 'C19')}
+
+
 def _roots_of(ctx, rep):
     by_short = {f.short: f for f in ctx.prog.functions.values()}
-    return [by_short[s] for s in sorted(rep.functions) if s in by_short and not by_short[s].module.name.startswith('template:')]
+    return [by_short[s] for s in sorted(rep.functions) if s in by_short and not by_short[s].module.name.startswith('template:')
+            and not (s in DISPATCHERS and rep.prop not in DISPATCHERS[s])]
 
 
 def _with_hidden_state(pid, fn):
     def wrapped(ctx, rep):
-        fn(ctx, rep)
+        deferred = None
+        try:
+            fn(ctx, rep)
+        except AnalysisError as e:
+            # a vanished anchor / instance count stops the property's own rules; the closure-wide rules below still run,
+            # and a violation they find is reported first (exit 1) -- otherwise the run fails as undecidable (exit 2)
+            deferred = e
+        try:
+            _closure_wide(ctx, rep)
+        except AnalysisError:
+            if deferred is None:
+                raise
+        if deferred is not None:
+            if not rep.violations():
+                raise deferred
+            rep.note('analysis incomplete: {}'.format(deferred))
+
+    def _closure_wide(ctx, rep):
         if pid != 'C19':
             # hidden state is judged on the call-graph closure of the functions this property analysed
             rep.instances = [i for i in rep.instances if not i.rule.startswith('R-STATE.c')]
@@ -646,6 +703,11 @@ def _with_hidden_state(pid, fn):
                 sfuncs.append(g0)
                 st.extend(g0.nested.values())
         sorts.check_sorts(ctx, rep, sfuncs)
+        work.check_recursive_memo(ctx, rep, sfuncs)
+        effect.check_scope_operands(ctx, rep, _roots_of(ctx, rep))
+        fresh.check_epsilon_constants(ctx, rep, sfuncs)
+        fresh.check_epsilon_forwarded(ctx, rep, sfuncs)
+        fresh.check_word_symbols(ctx, rep, sfuncs)
         sorts.check_grammar_symbol_sorts(ctx, rep, sfuncs)
         rep.clauses_decided.append('the declared sorts State / Symbol / Direction (NewTypes of the repository) are respected in memberships, comparisons, set algebra, mapping keys and arguments inside the operations of this property (R-SORT)')
         rep.clauses_decided.append('encodings that carry identity inside the operations of this property are injective: names of composite states, __eq__ of the value classes, look-up keys built from printed forms; the input word is consumed unmodified (R-INJ on the call-graph closure)')
